@@ -685,6 +685,10 @@ func checkPLY(c plyCase, o *kit.Obs) error {
 	if err != nil {
 		return fmt.Errorf("NewPLYReader on the written file: %v", err)
 	}
+	hdrCounts := make([]int64, len(hdr.Elements))
+	for i, e := range hdr.Elements {
+		hdrCounts[i] = e.Count
+	}
 	got := pr.Header()
 	if got.Format != hdr.Format {
 		return fmt.Errorf("header format: wrote %v, read %v", hdr.Format, got.Format)
@@ -714,6 +718,10 @@ func checkPLY(c plyCase, o *kit.Obs) error {
 			}
 			if len(vals) != len(el.Props) {
 				return fmt.Errorf("element %d row %d: %d values for %d properties", ei, ri, len(vals), len(el.Props))
+			}
+			// the element that comes with a row, and the header, describe the file: the declared count stays
+			if gel != nil && gel.Count != int64(len(el.Rows)) {
+				return fmt.Errorf("element %d row %d: the element returned with the row declares %d rows, the file declares %d", ei, ri, gel.Count, len(el.Rows))
 			}
 			for i, p := range el.Props {
 				k := plyTypes[p.Type].kind
@@ -745,6 +753,19 @@ func checkPLY(c plyCase, o *kit.Obs) error {
 		vals, gel, err := pr.Read()
 		if !errors.Is(err, io.EOF) {
 			return fmt.Errorf("after the %d declared rows Read returned (%v, %v, %v), want io.EOF", rows, vals, gel, err)
+		}
+	}
+	// a converter builds its writer from the reader's header, before or after reading: it still describes the file
+	after := pr.Header()
+	if len(after.Elements) != len(hdr.Elements) {
+		return fmt.Errorf("after reading, Header() declares %d elements, the file %d", len(after.Elements), len(hdr.Elements))
+	}
+	for i, e := range hdr.Elements {
+		if g := after.Elements[i]; g == nil || g.Name != e.Name || g.Count != e.Count {
+			return fmt.Errorf("after reading, Header() element %d is %+v, the file declares %q with %d rows", i, g, e.Name, e.Count)
+		}
+		if e.Count != hdrCounts[i] {
+			return fmt.Errorf("reading changed the header that was handed to the writer: element %d count %d -> %d", i, hdrCounts[i], e.Count)
 		}
 	}
 	return nil
